@@ -113,6 +113,15 @@ register('C10', 'p_update', 'c10',
          'are parsed independently to compare DIST/IGNORE/TIMESTAMP lines, out-of-scope entries and entry types.',
          ORACLE + ['kernel: file mtimes only change when a file is written'])
 
+register('C12', 'p_update', 'c12',
+         UPD_RULE + '(1) update + save, all files aged, then a second update + save by a fresh or the same loader: the queue of Manifests to rewrite must be empty and '
+         'bytes and st_mtime_ns of every file unchanged; (2) pairs of runs on one tree (one Manifest per directory, no duplicate entries, sorting on, forced save, '
+         'every watermark/format) that differ in the scandir order and in the order of the lines of the old Manifests: all written Manifests byte-identical, '
+         'for /repo and for the model; non-trivial = distinct case / pair',
+         'Theorems in Properties/C12.v (save with an empty queue writes nothing; the sorted dump is canonical and idempotent); the runs decide that the second '
+         'update queues nothing and that the written entry set does not depend on enumeration order.',
+         ORACLE + ['kernel: st_mtime_ns changes when a file is written (files are aged to a fixed old time between the runs)'])
+
 # ---- MANIFEST metadata per claimed property ------------------------------------------------
 NOT_APPLICABLE = {}
 META = {
@@ -200,6 +209,13 @@ META = {
               '(C10_write_frame, C10_unlink_frame); a refreshed entry keeps its tag, path and aux name. PARTIAL: that save writes only Manifest paths and the preservation of '
               'DIST/IGNORE/TIMESTAMP and out-of-scope entries through the whole update are checked on generated trees (content+mtime listings, independent Manifest parser).',
    level_note='About Exec/Tree.v run_op over Model/Update.v; the model does not expose partially completed saves (a failing save is compared up to its error only).'),
+ 'C12': dict(engine='coq+tree', design_ref='DESIGN.md section 5 C12',
+   technique='Coq theorems (save with an empty queue is the identity; sorted() over a strict weak order is canonical and idempotent) + repeated and order-permuted update runs on real trees',
+   level_text='Proved in Coq for all inputs: a save with nothing queued and no force returns the same filesystem and loader state (C12_nothing_queued_nothing_written); the sorted dump of '
+              'any two arrangements of the same entries is identical, and sorting twice equals sorting once, for entries ordered by (tag, path | timestamp) with pairwise distinct keys '
+              '(C12_sorted_dump_canonical, C12_sorted_dump_idempotent), likewise the checksum-name order. PARTIAL: that a second update queues nothing and that the written entry set is '
+              'independent of the enumeration order is decided on generated trees (queue + st_mtime_ns of every file; paired runs with permuted scandir order and permuted old Manifests).',
+   level_note='About Model/Update.v save_manifests and Py/PyStr.v py_sorted (= save_manifest\'s sort); the deterministic gzip header is exercised on the implementation (compressed bytes are an oracle).'),
  'C09': dict(engine='coq+text', design_ref='DESIGN.md section 5 C09',
    technique='Coq theorems (totality of the parser result type by induction over lines; per-class rejection lemmas) + differential runs',
    level_text='Proved in Coq for every text: load returns entries, ManifestSyntaxError or ManifestUnsignedData and nothing else; accepted entries '
